@@ -2,6 +2,7 @@
 import Props.C06
 #print axioms SpyneModel.Props.C06.facts06_good
 #print axioms SpyneModel.Props.C06.emitted_valid
+#print axioms SpyneModel.Props.C06.enumeration_literals_legal
 #print axioms SpyneModel.Props.C06.generated_schema_denotes
 #print axioms SpyneModel.Props.C06.leaf_literal_valid
 #print axioms SpyneModel.Props.C06.lxml_soft_agree
